@@ -44,7 +44,7 @@ try:
         out_ = {}
         for t in tests:
             jf = f"/tmp/cs_{pid}_{k}_{tag}.xml"
-            c, o, tt = run([PY, "-m", "pytest", "-q", "-p", "no:cacheprovider", "--timeout=900", f"--junitxml={jf}", t], wt, timeout=7200)
+            c, o, tt = run([PY, "-m", "pytest", "-q", "-p", "no:cacheprovider", "--timeout=900", "--continue-on-collection-errors", f"--junitxml={jf}", t], wt, timeout=7200)
             ok_ = set()
             try:
                 for tc in ET.parse(jf).iter("testcase"):
